@@ -4,6 +4,7 @@ import (
 	"bufio"
 	"bytes"
 	"fmt"
+	"net"
 	"net/http"
 	"net/netip"
 	"strconv"
@@ -24,7 +25,7 @@ var ssdpLogger = fastlog.New("ssdp")
 //
 // Must be 239.255.255.250:1900. If the port number (“:1900”) is omitted,
 // the receiver should assume the default SSDP port number of 1900.
-var ssdpIPv4Addr = packet.Addr{MAC: packet.EthBroadcast, IP: netip.AddrFrom4([4]byte{239, 255, 255, 250}), Port: 1900}
+var ssdpIPv4Addr = packet.Addr{MAC: net.HardwareAddr{0x01, 0x00, 0x5e, 0x7f, 0xff, 0xfa}, IP: netip.AddrFrom4([4]byte{239, 255, 255, 250}), Port: 1900}
 
 // Web Discovery Protocol - WSD
 var wsd4IPv4Addr = packet.Addr{MAC: packet.EthBroadcast, IP: netip.AddrFrom4([4]byte{239, 255, 255, 250}), Port: 3702}
